@@ -467,6 +467,42 @@ def g_lowpass_dd(s, P):
     return P
 
 
+LIB = [('Demographics1D', 'two_epoch', [[0.5, 0.05], [2.0, 0.1]], 1), ('Demographics1D', 'growth', [[2.0, 0.05], [0.5, 0.1]], 1),
+       ('Demographics1D', 'bottlegrowth_1d', [[0.5, 2.0, 0.05]], 1), ('Demographics1D', 'three_epoch', [[0.5, 2.0, 0.05, 0.02]], 1),
+       ('Demographics2D', 'bottlegrowth_split', [[0.5, 2.0, 0.05, 0.02]], 2), ('Demographics2D', 'bottlegrowth_split_mig', [[0.5, 2.0, 0.05, 0.02, 1.0]], 2),
+       ('Demographics2D', 'split_asym_mig', [[1.0, 2.0, 0.05, 1.0, 0.5]], 2), ('Demographics2D', 'split_delay_mig', [[1.0, 2.0, 0.03, 0.02, 1.0, 0.5]], 2),
+       ('Demographics2D', 'IM', [[0.4, 1.0, 2.0, 0.05, 1.0, 0.5]], 2), ('Demographics2D', 'IM_pre', [[1.5, 0.02, 0.4, 1.0, 2.0, 0.05, 1.0, 0.5]], 2),
+       ('Demographics3D', 'out_of_africa', [[1.5, 0.5, 0.3, 2.0, 0.3, 3.0, 0.5, 0.2, 0.3, 0.1, 0.05, 0.03, 0.02]], 3)]
+
+
+def g_library(s, P):
+    """library models (compositions of the integrators and PhiManip) through grid extrapolation"""
+    for _ in range(s.randint(1, 2)):
+        mod, name, plist, nd = s.choice(LIB)
+        f = {'$fn': 'model', 'id': 'lib', 'args': [mod, name]}
+        ns = [s.choice([2, 3, 4]) for _ in range(nd)]
+        pts = s.choice([[8], [8, 10]]) if nd < 3 else [6]
+        fs = P.add('extrap_call', f, s.choice(plist), ns, pts)
+        if s.chance(0.5):
+            _spec_tail(s, P, fs, ns)
+    return P
+
+
+def g_nlopt(s, P):
+    f = {'$fn': 'model', 'id': 'two_epoch'}
+    ns = [s.choice([4, 6])]
+    pts = [8]
+    truth = P.add('extrap_call', f, [s.choice([0.5, 2.0]), s.choice([0.05, 0.1])], ns, pts)
+    data = P.add('S.scale', truth, s.choice([50.0, 200.0]))
+    kw = dict(lower_bound=[0.1, 0.01], upper_bound=[10.0, 1.0], maxeval=s.choice([8, 15]), multinom=s.chance(0.7))
+    if s.chance(0.3):
+        kw['fixed_params'] = [None, 0.05]
+    if s.chance(0.3):
+        kw['upper_bound'] = [None, 1.0]
+    P.add('nlopt_opt', [1.0, 0.07], data, f, pts, **kw)
+    return P
+
+
 def g_optgrid(s, P):
     """brute-force grid search with full output (thetas come back through Inference._theta_store), twice, on different data"""
     f = {'$fn': 'model', 'id': 'two_epoch'}
@@ -764,7 +800,7 @@ def g_interference(s, P):
 
 TEMPLATES = [
     (g_chain1d, 10), (g_regrid, 4), (g_chain2d, 12), (g_chain3d, 7), (g_chain4d, 6), (g_chain5d, 2), (g_spectrum, 10), (g_numerics, 7),
-    (g_badcalls, 5), (g_lowpass, 4), (g_lowpass_model, 2), (g_lowpass_dd, 3), (g_optgrid, 2), (g_datadict, 5), (g_opthelp, 4), (g_objective, 3), (g_inbreeding, 4), (g_extrap, 5), (g_demes, 6), (g_godambe, 8), (g_godambe_neg, 2), (g_godambe_real, 2),
+    (g_badcalls, 5), (g_lowpass, 4), (g_lowpass_model, 2), (g_lowpass_dd, 3), (g_optgrid, 2), (g_nlopt, 2), (g_library, 6), (g_datadict, 5), (g_opthelp, 4), (g_objective, 3), (g_inbreeding, 4), (g_extrap, 5), (g_demes, 6), (g_godambe, 8), (g_godambe_neg, 2), (g_godambe_real, 2),
 ]
 
 
